@@ -25,7 +25,7 @@ var props = []Prop{
 	{
 		ID:         "C19",
 		Level:      "fault_enumeration",
-		Rule:       "Scenario = (output description generated from the documented grammar incl. every ifExists value and 21 kinds of invalid member at a drawn position, produced by evaluating generated arr.ai source; pre-existing simulated disk state drawn from the same name pool so collisions are frequent). arrai.OutputValue runs against the simulated disk; the resulting full-disk snapshot and the operation log are compared with a reference model of docs/docs/cli/eval.md (reject => failure and byte-identical disk; valid => success and exactly the described tree; nothing outside PATH mutated). For valid scenarios the run is repeated once per disk operation of the fault-free run with that operation failing (mkdir/create/write-with-prefix/sync/close/removeall/stat): success may only be reported with the described tree. Non-trivial = more than 2 disk operations; distinct = distinct (model verdict, ifExists contexts hit, number of top-level entries).",
+		Rule:       "Scenario = (output description generated from the documented grammar incl. every ifExists value and 21 kinds of invalid member at a drawn position, produced by evaluating generated arr.ai source; pre-existing simulated disk state drawn from the same name pool so collisions are frequent). arrai.OutputValue runs against the simulated disk; the resulting full-disk snapshot and the operation log are compared with a reference model of docs/docs/cli/eval.md (reject => failure and byte-identical disk; valid => success and exactly the described tree; nothing outside PATH mutated). For valid scenarios the run is repeated once per disk operation of the fault-free run with that operation failing (mkdir/create/write-with-prefix/sync/close/removeall/stat): success may only be reported with the described tree; where the command survives the first fault, a second fault is injected at each later operation (fault sequences of length 2, at most 40 pairs per scenario). Non-trivial = more than 2 disk operations; distinct = distinct (model verdict, ifExists contexts hit, number of top-level entries).",
 		Components: map[string][]string{"real": {"pkg/arrai/out.go (OutputValue and below)", "syntax (evaluation of the description source)", "rel"}, "stub": {"disk: aaverif/simfs (in-memory POSIX-like afero.Fs with operation log and fault injection)"}},
 		Assume:     []string{"simfs reproduces POSIX semantics for the operations out.go uses (Stat, Mkdir, Create, Write, Sync, Close, RemoveAll)", "documentation docs/docs/cli/eval.md is the specification; where it is silent (file/dir kind collisions, entry names that are not one path element, invalid content under an ignored existing entry) several outcomes are accepted"},
 		Batches: []Batch{
@@ -38,7 +38,7 @@ var props = []Prop{
 	{
 		ID:         "C20",
 		Level:      "fault_enumeration",
-		Rule:       "Scenario = simulated directory layout (1-4 *_test.arrai files in nested directories, a directory named like a test file, hidden directories holding failing/broken tests that must be skipped, non-test decoys, files importing siblings; target given absolute, relative, as a sub-directory or as a single file) x generated result trees (tuples/arrays/dicts nested <=4 built by several routes incl. +>, ++ and offset arrays; leaves true/false/other by several spellings; optional syntax or evaluation errors). test.RunTests runs against the simulated disk; its error and parsed report are compared with the leaf census the generator wrote down (pass iff all leaves true; one report line per leaf; summary counts add up). Then the run is repeated once per disk operation of the fault-free run with that operation failing (stat/open/read-with-prefix/readdir/close): a fault may turn a pass into a failure, never a failure into a pass. Half of the scenarios are all-true so both directions of the iff are exercised. Non-trivial = >=2 leaves; distinct = distinct (verdict, file count, multiset of leaf paths and outcomes).",
+		Rule:       "Scenario = simulated directory layout (1-4 *_test.arrai files in nested directories, a directory named like a test file, hidden directories holding failing/broken tests that must be skipped, non-test decoys, files importing siblings; target given absolute, relative, as a sub-directory or as a single file) x generated result trees (tuples/arrays/dicts nested <=4 built by several routes incl. +>, ++ and offset arrays; leaves true/false/other by several spellings; optional syntax or evaluation errors). test.RunTests runs against the simulated disk; its error and parsed report are compared with the leaf census the generator wrote down (pass iff all leaves true; one report line per leaf; summary counts add up). Then the run is repeated once per disk operation of the fault-free run with that operation failing (stat/open/read-with-prefix/readdir/close): a fault may turn a pass into a failure, never a failure into a pass; a second fault is then injected at each later operation of the faulted run (fault sequences of length 2, at most 40 pairs per scenario). Half of the scenarios are all-true so both directions of the iff are exercised. Non-trivial = >=2 leaves; distinct = distinct (verdict, file count, multiset of leaf paths and outcomes).",
 		Components: map[string][]string{"real": {"pkg/test (RunTests, walk, RunExpr, ForeachLeaf, calcStats, Report)", "syntax (compiler, evaluator, local imports)", "rel"}, "stub": {"disk: aaverif/simfs", "report writer: bytes.Buffer"}},
 		Assume:     []string{"the census is written down by the generator, not computed by evaluating anything", "dictionaries with several values under one key, and array index naming across offsets/holes, are not specified and not compared", "wall-time fields of the report are ignored"},
 		Batches: []Batch{
